@@ -54,7 +54,11 @@ def block_plan(variant, quick, only_prec):
         return [(c[0], c[0], 3)]
     plan = []
     if not (quick and variant in ("dip", "dea")):
-        plan.append((c[0], c[0], 2 if quick else 3))
+        # dip in the thorough tier through fourth order: the x*x term of the
+        # Taylor series of S^(-1/2) first contributes there (classes with two
+        # indices of one kind; defect fixed in /repo, see findings)
+        plan.append((c[0], c[0], 2 if quick else
+                     (4 if variant == "dip" else 3)))
         plan.append((c[1], c[1], 0 if quick else 1))
     plan += [(c[0], c[1], 2), (c[1], c[0], 2)]
     if not quick and len(c) > 2:
